@@ -6,26 +6,30 @@ import json, os, subprocess, sys, re
 B='/verif/benign'
 ENV='GOFLAGS=-mod=mod GOPROXY=off GOSUMDB=off GOTOOLCHAIN=local'
 def sh(cmd, **kw): return subprocess.run(cmd, shell=True, capture_output=True, text=True, **kw)
-assert sh('git -C /repo diff --quiet').returncode == 0, '/repo not clean'
+# REPO: the tree the patches are applied to (default /repo; a scratch worktree of /repo at the same commit when
+# several shards run in parallel: VGW_META_REPO=/tmp/wt-x); BIN: the checker binary
+REPO=os.environ.get('VGW_META_REPO','/repo')
+BIN=os.environ.get('VGW_META_BIN','/verif/bin/vgwsa')
+assert sh(f'git -C {REPO} diff --quiet').returncode == 0, REPO+' not clean'
 only = sys.argv[1:]
 for d in sorted(os.listdir(B)):
     if only and d not in only: continue
     p=os.path.join(B,d)
     if not os.path.exists(p+'/patch.diff'): continue
-    r=sh(f'git -C /repo apply {p}/patch.diff')
+    r=sh(f'git -C {REPO} apply {p}/patch.diff')
     if r.returncode!=0:
         print(d,'PATCH DOES NOT APPLY', r.stderr[:200]); continue
     try:
-        b=sh(f'cd /repo && env {ENV} go build ./...')
-        res=sh('/verif/bin/vgwsa check -prop all -no-evidence')
+        b=sh(f'cd {REPO} && env {ENV} go build ./...')
+        res=sh(f'VGW_REPO={REPO} {BIN} check -prop all -no-evidence')
         out=res.stdout+res.stderr
     finally:
-        sh('git -C /repo checkout -- . && git -C /repo clean -fdq')
+        sh(f'git -C {REPO} checkout -- . && git -C {REPO} clean -fdq')
     viol=[l for l in out.splitlines() if l.startswith('violation:')]
     broken=[l for l in out.splitlines() if l.startswith('BROKEN')]
     meta={'id':d,'kind':'behaviour-preserving refactoring by an independent sub-agent (property text + scratch worktree only)',
           'builds': b.returncode==0, 'alarms':[l[:400] for l in viol], 'machinery_failures':[l[:400] for l in broken],
-          'repo_commit': sh('git -C /repo rev-parse --short HEAD').stdout.strip()}
+          'repo_commit': sh(f'git -C {REPO} rev-parse --short HEAD').stdout.strip()}
     old={}
     if os.path.exists(p+'/meta.json'):
         try: old=json.load(open(p+'/meta.json'))
